@@ -42,6 +42,10 @@ type w3Ops struct {
 	CapOut  int        `json:"cap_out"`
 	SlowOut int        `json:"slow_out_us"`
 	Solo    bool       `json:"solo_differential"`
+	// SameChannel: the devices play on the same MIDI channel with the same notes and each has its own output
+	// channel (so that outputs can still be told apart); otherwise they share one output channel and use
+	// disjoint MIDI channels
+	SameChannel bool `json:"same_channel"`
 }
 
 var ledNames []string
@@ -113,7 +117,13 @@ func genW3(r *simrt.Rng, prop string, tier string) (*w3Ops, []*model.Desc) {
 	if prop == "C16" {
 		nd = r.Range(1, 3)
 		o.Solo = nd > 1 && r.Chance(0.5)
+		if nd > 1 && r.Chance(0.4) {
+			o.SameChannel = true
+			o.Solo = true
+		}
 	}
+	sharedNotes := []int{60, 62, 64, 65, 67}
+	sharedMode := modes[r.Intn(4)]
 	if r.Chance(0.3) {
 		o.SlowOut = []int{50, 500, 3000}[r.Intn(3)]
 	}
@@ -158,6 +168,49 @@ func genW3(r *simrt.Rng, prop string, tier string) (*w3Ops, []*model.Desc) {
 			d.Channel = 1 + i*5
 			d.Actions = filterActions(d.Actions, "channel_up", "channel_down")
 			stripOffsets(d)
+			if o.SameChannel {
+				// ... or on purpose on the same channel with the same few notes
+				d.Channel = 3
+				d.Mode = sharedMode
+				d.Octave, d.Semitone = 0, 0
+				d.Actions = filterActions(d.Actions, "octave_up", "octave_down", "semitone_up", "semitone_down")
+				for mi := range d.Mappings {
+					for si := range d.Mappings[mi].Keys {
+						for ki := range d.Mappings[mi].Keys[si].Keys {
+							k := &d.Mappings[mi].Keys[si].Keys[ki]
+							k.Note = sharedNotes[r.Intn(len(sharedNotes))]
+							k.NoteText = fmt.Sprint(k.Note)
+						}
+					}
+				}
+			}
+		}
+		if prop == "C17" && r.Chance(0.25) {
+			// transposition-heavy profile: very low or very high base notes brought back into range by
+			// large opposite octave / semitone excursions
+			low := r.Chance(0.5)
+			for mi := range d.Mappings {
+				used := map[int]bool{}
+				for si := range d.Mappings[mi].Keys {
+					for ki := range d.Mappings[mi].Keys[si].Keys {
+						k := &d.Mappings[mi].Keys[si].Keys[ki]
+						n := r.Range(0, 14)
+						if !low {
+							n = r.Range(113, 127)
+						}
+						for used[n] {
+							n = (n + 1) % 128
+						}
+						used[n] = true
+						k.Note, k.NoteText = n, fmt.Sprint(n)
+					}
+				}
+			}
+			if low {
+				d.Semitone, d.Octave = -r.Range(1, 30), r.Range(1, 3)
+			} else {
+				d.Semitone, d.Octave = r.Range(1, 30), -r.Range(1, 3)
+			}
 		}
 		descs = append(descs, d)
 		dv := w3Dev{Layout: genLayout(r, d)}
@@ -369,8 +422,29 @@ func execW3(t *testing.T, seed uint64, prop string, ops *w3Ops, descs []*model.D
 		dialer = srv.dial
 		defer func() { dialer = nil }()
 		out := make(chan midi.Event, ops.CapOut)
+		outs := make([]chan midi.Event, len(states))
 		sigs := make(chan os.Signal, 4)
 		var mu sync.Mutex
+		if ops.SameChannel {
+			for i := range outs {
+				i := i
+				outs[i] = make(chan midi.Event, ops.CapOut)
+				simrt.Go(fmt.Sprintf("collector%d", i), func() {
+					for {
+						ev, ok := simrt.Recv(outs[i])
+						if !ok {
+							return
+						}
+						mu.Lock()
+						states[i].out = append(states[i].out, append([]byte(nil), ev...))
+						mu.Unlock()
+						if ops.SlowOut > 0 {
+							simrt.Sleep(time.Duration(ops.SlowOut) * time.Microsecond)
+						}
+					}
+				})
+			}
+		}
 		// merged output: attribute by channel (devices of a C16 run use disjoint channels)
 		simrt.Go("collector", func() {
 			for {
@@ -415,7 +489,11 @@ func execW3(t *testing.T, seed uint64, prop string, ops *w3Ops, descs []*model.D
 			st.in = make(chan *input.InputEvent, 8)
 			st.midiIn = make(chan midi.Event, 8)
 			st.m = model.NewDev(st.d)
-			dev := device.NewDevice(inDev, config.DeviceConfig{ConfigFile: "sim.toml", ConfigType: "user", Config: cfgs[i]}, out, st.midiIn, true, 6742, sigs)
+			devOut := out
+			if ops.SameChannel {
+				devOut = outs[i]
+			}
+			dev := device.NewDevice(inDev, config.DeviceConfig{ConfigFile: "sim.toml", ConfigType: "user", Config: cfgs[i]}, devOut, st.midiIn, true, 6742, sigs)
 			simrt.Go(fmt.Sprintf("device%d", i), func() {
 				mu.Lock()
 				st.taskID = simrt.SelfID()
@@ -457,6 +535,11 @@ func execW3(t *testing.T, seed uint64, prop string, ops *w3Ops, descs []*model.D
 			}
 		}
 		simrt.Close(out)
+		if ops.SameChannel {
+			for i := range outs {
+				simrt.Close(outs[i])
+			}
+		}
 		srv.closeAll()
 		simrt.WaitIdle()
 	})
@@ -580,9 +663,13 @@ func w3Drive(st *w3DevState, dv w3Dev, ops *w3Ops, srv *orgbServer, mu *sync.Mut
 	// unplug
 	mu.Lock()
 	st.closedAt = simrt.Now()
+	stall0 := simrt.StallTotal()
 	mu.Unlock()
 	simrt.Close(st.in)
-	allow := 2*time.Second + time.Duration(ops.Faults.DialDelayMs)*time.Millisecond + 4*time.Duration(ops.Faults.ReplyDelayUs)*time.Microsecond +
+	// "promptly": one LED period plus what the peers were told to take (a connection attempt, one round of
+	// controller queries, the frames in flight, the MIDI consumer) - never the 2 s / 5 s give-up timers
+	nctrl := len(srv.Controllers) + 2
+	allow := 150*time.Millisecond + time.Duration(ops.Faults.DialDelayMs)*time.Millisecond + time.Duration(nctrl)*time.Duration(ops.Faults.ReplyDelayUs)*time.Microsecond +
 		4*time.Duration(ops.Faults.FrameDelayUs)*time.Microsecond + 20*time.Duration(ops.SlowOut)*time.Microsecond
 	deadline := simrt.Now() + allow + 3*time.Second
 	for {
@@ -597,6 +684,11 @@ func w3Drive(st *w3DevState, dv w3Dev, ops *w3Ops, srv *orgbServer, mu *sync.Mut
 	mu.Lock()
 	d, took, tid := st.done, st.doneAt-st.closedAt, st.taskID
 	mu.Unlock()
+	// injected scheduler stalls ("the whole process was descheduled") are not the device's doing
+	took -= simrt.StallTotal() - stall0
+	if took < 0 {
+		took = 0
+	}
 	if !d {
 		fail(st, len(dv.Script), &model.Violation{Props: []string{"C16"}, Clause: "processing_does_not_end", Detail: fmt.Sprintf("ProcessEvents has not returned %v after its event stream ended (alive below it: %v)", simrt.Now()-st.closedAt, simrt.AliveUnder(tid))})
 		simrt.Stop()
